@@ -142,7 +142,7 @@ def run(tier, seed, replay=None):
     from codelimit.common.report.ReportReader import ReportReader
     from codelimit.common.report.ReportWriter import ReportWriter
     chk = Check("C08", tier, seed)
-    model_ok = chk.proof_stage(["Report/Writer.vo"])
+    model_ok = chk.proof_stage(["Report/Writer.vo", "Report/WriterProofs.vo"])
     n = 250 if tier == "quick" else 8000
     cases = []
     texts = []
